@@ -377,32 +377,28 @@ theorem legacy_perm (m : MethodS) (h : (m.fields.map (pyFieldName m.protoPlus)).
   rw [legacy_order m h]
   exact (List.filter_append_perm _ _).map _
 
-/-- **The fix-up table has an entry for every RPC name — up to letter case**: for every RPC there is
-a listed RPC with the same lower-cased name (Jinja's `unique` is case-insensitive; compare
-`fixup_case_insensitive_unique_counterexample`). -/
-theorem fixup_has_every_rpc_name_partial (api : Api) (m : MethodS) (hm : m ∈ allMethods api) :
-    ∃ m' ∈ allMethods api, lower m'.name = lower m.name ∧
-      (toSnakeCase m'.name, legacyNames m') ∈ fixupTable api := by
+/-- **The fix-up table has an entry for every RPC name**: keyed by the snake-cased RPC name, carrying
+the request fields of an RPC of exactly that name (the first one in `api.services` order). -/
+theorem fixup_has_every_rpc_name (api : Api) (m : MethodS) (hm : m ∈ allMethods api) :
+    ∃ m' ∈ allMethods api, m'.name = m.name ∧
+      (toSnakeCase m.name, legacyNames m') ∈ fixupTable api := by
   have hs : m ∈ sortBy (fun m => lower m.name) (allMethods api) := (sortBy_perm _ _).mem_iff.mpr hm
-  obtain ⟨y, hy, hk⟩ := uniqueBy_covers (fun m : MethodS => lower m.name) _ [] m hs (by simp)
+  obtain ⟨y, hy, hk⟩ := uniqueBy_covers (fun m : MethodS => m.name) _ [] m hs (by simp)
   refine ⟨y, (sortBy_perm _ _).mem_iff.mp (uniqueBy_sub _ _ _ y hy), hk, ?_⟩
   simp only [fixupTable, List.mem_map]
-  exact ⟨y, hy, rfl⟩
+  exact ⟨y, hy, by rw [hk]⟩
 
-/-- RPCs whose names agree up to letter case have the same name and the same request fields
-(in particular: RPC names unique across services up to case) -/
+/-- RPCs of the same name (in different services) have the same request fields -/
 def FixupUnambiguous (api : Api) : Prop :=
-  ∀ m ∈ allMethods api, ∀ m' ∈ allMethods api, lower m.name = lower m'.name →
-    m.name = m'.name ∧ legacyNames m = legacyNames m'
+  ∀ m ∈ allMethods api, ∀ m' ∈ allMethods api, m.name = m'.name → legacyNames m = legacyNames m'
 
 /-- **The fix-up table lists, for every RPC name, all request fields, required first and otherwise in
-declaration order** (with `legacy_order`), when no two RPCs share a name up to case with different
-request fields. -/
-theorem fixup_has_every_rpc_name (api : Api) (hu : FixupUnambiguous api) (m : MethodS) (hm : m ∈ allMethods api) :
+declaration order** (with `legacy_order`), when RPCs sharing a name share their request fields
+(the table is keyed by RPC name alone; compare `fixup_shared_name_counterexample`). -/
+theorem fixup_lists_request_fields (api : Api) (hu : FixupUnambiguous api) (m : MethodS) (hm : m ∈ allMethods api) :
     (toSnakeCase m.name, legacyNames m) ∈ fixupTable api := by
-  obtain ⟨m', hm', hl, hin⟩ := fixup_has_every_rpc_name_partial api m hm
-  obtain ⟨e1, e2⟩ := hu m' hm' m hm hl
-  rwa [e1, e2] at hin
+  obtain ⟨m', hm', hn, hin⟩ := fixup_has_every_rpc_name api m hm
+  rwa [hu m' hm' m hm hn] at hin
 
 /-- every row of the table comes from an RPC of the API -/
 theorem fixup_only_rpcs (api : Api) (e : Str × List Str) (he : e ∈ fixupTable api) :
@@ -462,12 +458,13 @@ def mPong : MethodS := ⟨"Pong".toList, false, true, [], false⟩
 def apiClash : Api := ⟨[], [], [], [⟨"Foo".toList, [mPing]⟩, ⟨"FooAsync".toList, [mPong]⟩]⟩
 def apiDup : Api := ⟨[], [], [], [⟨"Foo".toList, [mPing]⟩, ⟨"Foo".toList, [mPing]⟩]⟩
 
-/-- Jinja's `unique(attribute='name')` lower-cases its key: of two RPCs `GetBook` and `Getbook`
-(distinct RPC names, distinct client methods `get_book` / `getbook`) only the first is listed.
-Reproduced on the real generator: corpus/C15/case_insensitive_unique.json. -/
-theorem fixup_case_insensitive_unique_counterexample :
-    WF apiCase ∧ pyMethodName mGetBook ≠ pyMethodName mGetbook ∧
-    (fixupTable apiCase).map (·.1) = ["get_book".toList] := by decide
+/-- regression for the C15 `fix:` commit (`unique(case_sensitive=True, …)`): RPCs `GetBook` and `Getbook`
+(distinct names, distinct client methods `get_book` / `getbook`) both keep their row.
+Before the repair only `get_book` was listed; corpus/C15/case_insensitive_unique.json. -/
+theorem fixup_keeps_case_variants :
+    WF apiCase ∧ FixupUnambiguous apiCase ∧ pyMethodName mGetBook ≠ pyMethodName mGetbook ∧
+    fixupTable apiCase = [("get_book".toList, ["name".toList]), ("getbook".toList, ["isbn".toList])] := by
+  unfold FixupUnambiguous; decide
 
 /-- two services, one RPC name, different requests: one row, carrying the FIRST service's fields
 (the hypothesis `FixupUnambiguous` of `fixup_has_every_rpc_name` is needed). -/
@@ -487,7 +484,8 @@ theorem names_exist_extended_operation_async_counterexample :
        ("AddressesAsyncClient".toList, ["insert_unary".toList])] := by decide
 
 /-- services `Foo` and `FooAsync`: the class name `FooAsyncClient` is emitted twice
-(`ClassNamesDistinct` fails), and only one of the two classes has `ping`. -/
+(`ClassNamesDistinct` fails), and only one of the two classes has `ping`.  Reproduced once on the real
+generator, then classified as a hypothesis (not generated by the check). -/
 theorem class_name_clash_counterexample :
     WF apiClash ∧ ¬ ClassNamesDistinct apiClash [sGrpc] ∧
     (⟨"Foo".toList, sGrpcAsync, "FooAsyncClient".toList, "Ping".toList, "ping".toList⟩ : Row)
